@@ -342,7 +342,7 @@ def main():
         hit = caught.get(cn[0], False)
         run.canaries.append(dict(name=cn[0], detected=hit))
         if not hit:
-            run.inconc('canary not detected: %s' % cn[0])
+            run.canary_miss(cn[0], caught)
     numenv.enable()
     run.stubs = sorted(set(numenv.STUBS)) + ['?gbtrf/?gbtrs: contract A c = b on the matrix unpacked from LAPACK band storage AB[kl+ku+i-j,j]=A[i,j]',
                                              'splu(M).solve(b, trans): contract M c = b / M^T c = b', 'scipy.sparse dia/csr/csc_matrix: dense object stand-in']
